@@ -25,9 +25,9 @@ package leveldbstorage
 //@ func (*Storage).Delete
 //@   trusted
 //@   modifies *
+// (a write to leveldb changes no Go memory the verifier models)
 //@ func (*Storage).Batch
 //@   trusted
-//@   modifies *
 //@ func (*Storage).Iter
 //@   trusted
 //@   loops callback(ik, ib) -> keep, ierr
@@ -130,3 +130,33 @@ package leveldbstorage
 //@ func (*PrefixStorageBatch).Len
 //@   trusted
 //@   pure
+
+// removal of a range in rounds: every round iterates a range that ends where
+// the caller's range ends (a later round starts at the key the previous one
+// stopped at; the end never moves), and deletes exactly the keys it was shown
+//@ func (*Storage).db
+//@   trusted
+//@   pure
+//@ func BatchRemove
+//@   prop C25
+//@   requires st != nil
+//@   modifies *
+//@   callsite Iter requires a0 != nil && (old(r) != nil ==> a0.Limit == old(r.Limit)) && (old(r) == nil ==> len(a0.Limit) == 0)
+//@   loop 0 invariant r != nil && (old(r) != nil ==> r == old(r) && r.Limit == old(r.Limit)) && (old(r) == nil ==> len(r.Limit) == 0)
+
+// the batched writer: when a full batch is handed to the saver, the batch that
+// replaces it comes from the storage's own batch maker (for a prefix storage:
+// a batch that carries the prefix)
+//@ ghost nbmade int
+//@ func (*Storage).batchAddFunc$1$1
+//@   prop C25
+//@   requires batch != nil || isempty
+//@   requires put != nil && newBatch != nil && savef != nil && doBatch != nil
+//@   fnparam newBatch counts nbmade
+//@   ensures [local-own-batch] r0 != nil ==> nbmade == old(nbmade) + 1
+//@ func (*Storage).batchDoneFunc$1$1
+//@   prop C25
+//@   requires batch != nil || isempty
+//@   requires newBatch != nil && savef != nil && doBatch != nil
+//@   fnparam newBatch counts nbmade
+//@   ensures [local-own-batch] r0 != nil ==> nbmade == old(nbmade) + 1
